@@ -64,6 +64,7 @@ type c35World struct {
 	cfg       c35Cfg
 	pubs      [][]byte
 	validator *group.MembershipValidator
+	operators []chain.Address
 	included  []group.MemberIndex
 	incSet    map[int]bool
 }
@@ -129,6 +130,7 @@ func c35LoadWorld(t *testing.T) *c35World {
 		}
 		operators = append(operators, addr)
 	}
+	w.operators = operators
 	w.validator = group.NewMembershipValidator(&testutils.MockLogger{}, operators, signing)
 	for _, s := range w.cfg.Included {
 		w.included = append(w.included, group.MemberIndex(s))
